@@ -43,7 +43,11 @@
   (`validate_and_subtract`, `dynamic_array_ref::size_bytes`).
 
   This model is for builds WITHOUT `SBEPP_SIZE_CHECK` (release builds): there the
-  checks are no-ops and the reads are plain memory accesses.
+  checks are no-ops and the reads are plain memory accesses.  In checked builds
+  every logged read is preceded by `SBEPP_SIZE_CHECK(begin, end, offset, size)`,
+  which (since /repo 7262f97 also when `begin > end`) fails for a read that stops
+  beyond the view's end: there a logged read beyond `n` ends in the assertion
+  handler.  That is observed by the correspondence check, not modelled here.
 -/
 import Sbepp.Schema.Resolve
 import Sbepp.Rt.Walk
